@@ -125,7 +125,16 @@ func readV2Header(buf []byte, r io.Reader) (*Header, error) {
 		case 0x31, 0x32: // Unix socket (TCP/UDP)
 			// Not implemented by haproxy and I see no need to implement it here, patches welcome!
 			return &h, errors.New("received UNIX socket proxy command, Currently not supported")
+
+		default:
+			// AF_UNSPEC and unassigned values carry no addresses, accepting them would leave
+			// Source and Destination nil for a header that is not local.
+			return nil, fmt.Errorf("unsupported address family and protocol '0x%X'", buf[13])
 		}
+
+	default:
+		// Unassigned commands, the receiver must drop the connection.
+		return nil, fmt.Errorf("unsupported command '0x%X'", buf[12]&0x0F)
 	}
 
 	// If there is trailing data, it should be TLVs
